@@ -71,14 +71,17 @@ package conan
 
 // ---- tilde and caret (C05): at or above the base, and the leading components that the operator pins are the base's
 // (~X pins X; ~X.Y[.Z] pins X.Y; ^X.. with X != 0 pins X; ^0.Y.. with Y != 0 pins 0.Y; ^0.0.. pins all but the last written)
+// samePart: the two parts denote the same value under the order Compare uses ("01" and "1")
+//@ func samePart
+//@   ensures result == (a == b || naturalCompare(a, b) == 0)
 //@ spec partAt(v *Version, i int) string = i < len(v.parts) ? v.parts[i] : "0"
 //@ func (*VersionRange).tildeMatch
 //@   ensures below-base: version.Compare(constraint) < 0 ==> !result   [C05]
 //@   ensures no-components: version.Compare(constraint) >= 0 && len(constraint.parts) == 0 ==> result   [C05]
-//@   ensures major-pinned: version.Compare(constraint) >= 0 && len(constraint.parts) == 1 ==> result == (partAt(version, 0) == constraint.parts[0])   [C05]
-//@   ensures minor-pinned: version.Compare(constraint) >= 0 && len(constraint.parts) >= 2 ==> result == (partAt(version, 0) == constraint.parts[0] && partAt(version, 1) == constraint.parts[1])   [C05]
+//@   ensures major-pinned: version.Compare(constraint) >= 0 && len(constraint.parts) == 1 ==> result == samePart(partAt(version, 0), constraint.parts[0])   [C05]
+//@   ensures minor-pinned: version.Compare(constraint) >= 0 && len(constraint.parts) >= 2 ==> result == (samePart(partAt(version, 0), constraint.parts[0]) && samePart(partAt(version, 1), constraint.parts[1]))   [C05]
 //@ func (*VersionRange).caretMatch
 //@   ensures below-base: version.Compare(constraint) < 0 ==> !result   [C05]
 //@   ensures no-components: version.Compare(constraint) >= 0 && len(constraint.parts) == 0 ==> result   [C05]
-//@   ensures major-pinned: version.Compare(constraint) >= 0 && len(constraint.parts) >= 1 && constraint.parts[0] != "0" ==> result == (partAt(version, 0) == constraint.parts[0])   [C05]
-//@   ensures zero-major: version.Compare(constraint) >= 0 && len(constraint.parts) >= 2 && constraint.parts[0] == "0" && constraint.parts[1] != "0" ==> result == (partAt(version, 0) == "0" && partAt(version, 1) == constraint.parts[1])   [C05]
+//@   ensures major-pinned: version.Compare(constraint) >= 0 && len(constraint.parts) >= 1 && !samePart(constraint.parts[0], "0") ==> result == samePart(partAt(version, 0), constraint.parts[0])   [C05]
+//@   ensures zero-major: version.Compare(constraint) >= 0 && len(constraint.parts) >= 2 && samePart(constraint.parts[0], "0") && !samePart(constraint.parts[1], "0") ==> result == (samePart(partAt(version, 0), constraint.parts[0]) && samePart(partAt(version, 1), constraint.parts[1]))   [C05]
